@@ -3,40 +3,34 @@
    Model: LW.Sec.EndToEnd = compositions of the C01/C02/C03/C07 model functions in the order of
    the documented sender / receiver method sequences.
 
-   Premises left to the frame-codec work (Frame/*Proofs.v, the lead), stated in full in the
-   theorems that use them:
-     C05_recovers:      frame_roundtrip  = C01: a spec_valid frame marshals and decodes to its wire view;
-     C05_tamper_bytes:  reencode         = C08: canonical bytes that decode re-encode to themselves
-                        (discharged in C05_tamper_received_bytes with Frame.CanonProofs.phy_canonical).
-   Everything else (MAC command stream round trip, AES/CMAC byte ranges, involution of the
-   encryption, invariance of the MIC under the wire view) is proved. *)
+   No premise is left: the frame round trip (C01) is LW.Frame.RoundtripProofs.frame_roundtrip, the
+   re-encoding of canonical bytes (C08) is LW.Frame.CanonProofs.phy_canonical, the MAC command stream
+   round trip is LW.Mac.StreamProofs.stream_roundtrip; the rest (AES/CMAC byte ranges, involution of
+   the encryption, invariance of the MIC under the wire view) is proved in LW.Sec. *)
 From Coq Require Import List NArith ZArith Bool.
 From LW Require Import Base.Outcome Base.Bytes Crypto.AES Crypto.AESInv Crypto.CMAC Mac.Commands Mac.Spec Mac.Stream
      Mac.StreamProofs Mac.RegOkProofs
-     Frame.Model Frame.Spec Frame.CanonProofs Sec.MIC Sec.MICSpec Sec.MICProofs Sec.Encrypt Sec.EndToEnd Sec.EndToEndProofs
+     Frame.Model Frame.Spec Frame.CanonProofs Frame.RoundtripProofs Sec.MIC Sec.MICSpec Sec.MICProofs Sec.Encrypt Sec.EndToEnd Sec.EndToEndProofs
      Sec.Recover.
 From LWGen Require Import RegistryGen.
 Import ListNotations.
 Open Scope N_scope.
 
-(* both directions (MType of f), both versions, all byte keys, every counter / parameter value *)
-Theorem C05_recovers :
-  (forall p, spec_valid p = true -> exists bs, phy_marshal p = Ok bs /\ phy_unmarshal bs = Ok (wire_view p)) ->
-  forall ver k prm f m,
-    keys_ok k -> params_ok prm -> spec_valid_data builtin_registry f = true -> pl f = PLMac m ->
-    exists bs, sender ver k prm f = Ok bs /\
-               receiver builtin_registry ver k prm (fcnt (hdr m)) bs = Ok (commands_and_payload f).
-Proof. exact (recovers builtin_registry reg_ok_builtin). Qed.
+(* both directions (MType of f), both versions, all byte keys, every counter / parameter value.
+   The frame round trip of C01 is LW.Frame.RoundtripProofs.frame_roundtrip. *)
+Theorem C05_recovers : forall ver k prm f m,
+  keys_ok k -> params_ok prm -> spec_valid_data builtin_registry f = true -> pl f = PLMac m ->
+  exists bs, sender ver k prm f = Ok bs /\
+             receiver builtin_registry ver k prm (fcnt (hdr m)) bs = Ok (commands_and_payload f).
+Proof. exact (recovers builtin_registry reg_ok_builtin frame_roundtrip). Qed.
 Print Assumptions C05_recovers.
 
 (* ... and for the registry after any history of proprietary registrations *)
-Theorem C05_recovers_any_registry : forall h,
-  (forall p, spec_valid p = true -> exists bs, phy_marshal p = Ok bs /\ phy_unmarshal bs = Ok (wire_view p)) ->
-  forall ver k prm f m,
-    keys_ok k -> params_ok prm -> spec_valid_data (register_all builtin_registry h) f = true -> pl f = PLMac m ->
-    exists bs, sender ver k prm f = Ok bs /\
-               receiver (register_all builtin_registry h) ver k prm (fcnt (hdr m)) bs = Ok (commands_and_payload f).
-Proof. intros h. exact (recovers _ (reg_ok_history h)). Qed.
+Theorem C05_recovers_any_registry : forall h ver k prm f m,
+  keys_ok k -> params_ok prm -> spec_valid_data (register_all builtin_registry h) f = true -> pl f = PLMac m ->
+  exists bs, sender ver k prm f = Ok bs /\
+             receiver (register_all builtin_registry h) ver k prm (fcnt (hdr m)) bs = Ok (commands_and_payload f).
+Proof. intros h. exact (recovers _ (reg_ok_history h) frame_roundtrip). Qed.
 Print Assumptions C05_recovers_any_registry.
 
 Theorem C05_tamper : forall ver up k prm full bs b,
